@@ -53,6 +53,14 @@ def build():
          rules=N19 + [('N10', r'ptr::read\(', 'ptr_read(')],
          requires=[E('at', 'vec_at(old(self), id)')],
          ensures=[E('val', 'r == vec_val(old(self), id)'), E('frame', 'final(self).0@ == old(self).0@')])
+    # an override of the trait's default `drop` (absent on the pinned tree: the default is `self.remove(id);`): slot-wise frame as for
+    # remove; whether the value is actually destroyed exactly once (C08) / in an exception-safe order (C19) is not a postcondition
+    REVIEW = [E('destructor_site', 'an override of UnprotectedStorage::drop adds a destructor call site: its ordering w.r.t. the bookkeeping (C19) and its exactly-once accounting (C08) need a contract of their own', 'C19 C08')]
+    DROPRULES = [('N10', r'(?:core::|std::)?ptr::drop_in_place\(', 'raw_drop_in_place(')]
+    u.fn(ST, [VH, 'fn drop'], props='C04', key='VecStorage::drop', impl_header=VI, optional=True, rules=N19 + DROPRULES + [('N10', r'ptr::read\(', 'ptr_read(')],
+         requires=[E('at', 'vec_at(old(self), id)')],
+         ensures=[E('frame', 'final(self).0@.len() == old(self).0@.len() && forall|j: int| 0 <= j < old(self).0@.len() && j != id ==> #[trigger] final(self).0@[j] == old(self).0@[j]')],
+         review_if_present=REVIEW)
     u.fn(ST, [VH, 'fn clean'], props='C04 C08', key='VecStorage::clean', impl_header=VI, rules=N19 + N6B,
          requires=[E('mask', 'vec_ok(old(self), has_.bview())'), E('wf', 'vec_wf(old(self))')],
          hints=[('block_start', 'if has_.contains(', 'proof { assert(vec_at(old(self), i__ as Index)); }')],
@@ -84,6 +92,11 @@ def build():
     u.fn(ST, ['impl<T> SliceAccess<T> for DefaultVecStorage<T>', 'fn as_slice'], ret='r', props='C04', key='DefaultVecStorage::as_slice', impl_header='impl<T> DefaultVecStorage<T>',
          rules=SLR + [('N8', r'Self::Element', 'T')],
          ensures=[E('view', 'r@.len() == self.0@.len() && forall|i: int| 0 <= i < self.0@.len() ==> r@[i] == (#[trigger] self.0@[i]).cv()')])
+    u.fn(ST, [DH, 'fn drop'], props='C04', key='DefaultVecStorage::drop', impl_header=DI, optional=True, rules=N19 + DROPRULES,
+         requires=[E('at', '(id as int) < old(self).0@.len()')],
+         ensures=[E('frame', 'final(self).0@.len() == old(self).0@.len() && forall|j: int| 0 <= j < old(self).0@.len() && j != id ==> #[trigger] final(self).0@[j] == old(self).0@[j]'),
+                  E('default', 'def_val(final(self), id) == T::default_spec()')],
+         review_if_present=REVIEW)
     u.fn(ST, [DH, 'fn clean'], props='C04', key='DefaultVecStorage::clean', impl_header=DI,
          ensures=[E('empty', 'final(self).0@.len() == 0')])
     u.fn(ST, [DH, 'fn get'], ret='r', props='C04', key='DefaultVecStorage::get', impl_header=DI, rules=N19,
